@@ -29,4 +29,7 @@ package graphsync
 //@   callsite taskqueue.NewTaskQueue argis "ptqopts": assert (gsConfig.maxInProgressIncomingRequestsPerPeer > 0) <==> (len($ptqopts) == 1)
 //@   callsite WorkerTaskQueue.Startup argis "gsConfig.maxInProgressOutgoingRequests": assert self == requestQueue && $workerCount == gsConfig.maxInProgressOutgoingRequests
 //@   callsite WorkerTaskQueue.Startup argis "gsConfig.maxInProgressIncomingRequests": assert self == responseQueue && $workerCount == gsConfig.maxInProgressIncomingRequests
+//@   -- C22: both managers get the configured panic callback
+//@   callsite requestmanager.New: assert $panicCallback == gsConfig.panicCallback
+//@   callsite responsemanager.New: assert $panicCallback == gsConfig.panicCallback
 //@   callsite selectorvalidator.SelectorValidator: assert gsConfig.registerDefaultValidator && $maxAcceptedDepth == 100
